@@ -622,16 +622,8 @@ func (p *Program) dispatchTable(g *ssa.Global) []tableEntry {
 					if !ok || ld.Op.String() != "*" || ld.Referrers() == nil {
 						return nil
 					}
-					for _, ref := range *ld.Referrers() {
-						switch r := ref.(type) {
-						case *ssa.Lookup, *ssa.Range, *ssa.DebugRef:
-						case ssa.CallInstruction:
-							if b, ok := r.Common().Value.(*ssa.Builtin); !ok || b.Name() != "len" {
-								return nil
-							}
-						default:
-							return nil
-						}
+					if !loadedReadOnly(ld, 0) {
+						return nil
 					}
 				}
 			}
